@@ -415,8 +415,15 @@ class Explorer:
                  f"execs={agg['execs']} nontrivial={agg['nontrivial']} known={dict(by_finding)} "
                  f"unattributed={agg['n_unattributed']} violations={len(violations)} "
                  f"wall={wall:.1f}s")
+        if sigs:
+            try:
+                with open(VERIF / ".cache" / f"last-{self.pid}.txt", "w") as fh:
+                    for (facet, s), n in sigs.most_common():
+                        fh.write(f"{n:7d}  {facet}: {s}\n")
+            except OSError:
+                pass
         if self.verbose and sigs:
-            for (facet, s), n in sigs.most_common(15):
+            for (facet, s), n in sigs.most_common(8):
                 self.log(f"    {n:7d}  {facet}: {s}")
         return 1 if violations else 0
 
